@@ -39,7 +39,7 @@ def plan(tier, seed):
 def finalize(agg, tier):
     c = agg["counters"]
     out = []
-    need = ["calls:AESNI_start_operation", "calls:AES_start_operation", "calls:ghash_clmul", "calls:ghash_portable",
+    need = ["zero_divisor_operands", "from_bytes_twice", "calls:AESNI_start_operation", "calls:AES_start_operation", "calls:ghash_clmul", "calls:ghash_portable",
             "int_ops_compared", "transcript_lines:gmp", "transcript_lines:custom", "transcript_lines:native"]
     for n in need:
         if not c.get(n):
@@ -435,6 +435,37 @@ def w_int_inproc(spec, ctx):
                 args.append(rng.choice([0, 1, 2, 3, 5, 17, -1, -3]))
             else:
                 args.extend(intops.gen_args(rng, k))
+        if op in ("pow3", "pow3_I", "mult_modulo_bytes", "mod", "imod") and rng.random() < 0.3:
+            # zero divisors: an odd modulus that is not square-free (f1^2 * f2) and operands that are non-zero multiples of
+            # its factors, so that products vanish modulo it (the result 0 where a reduction step meets exactly the modulus)
+            f1 = rng.choice([3, 5, 7, 2 ** 31 - 1, rng.getrandbits(64) | 1, rng.getrandbits(200) | 1])
+            f2 = rng.choice([1, 3, 11, rng.getrandbits(64) | 1, rng.getrandbits(521) | 1])
+            m_ = f1 * f1 * f2
+            args[-1] = m_
+            args[0] = f1 * f2 * rng.choice([1, 1, 2, rng.getrandbits(30) | 1])
+            if op == "mult_modulo_bytes":
+                args[1] = f1 * rng.choice([1, 1, 3, rng.getrandbits(30) | 1])
+            elif op.startswith("pow3"):
+                args[1] = rng.choice([2, 2, 3, 5, 64])
+            ctx.count("zero_divisor_operands")
+        if op == "from_bytes" and rng.random() < 0.3:
+            # the same caller-owned bytearray decoded twice: the second decoding must see the same octets
+            order = args[1]
+            raw = bytearray(intops.m_to_bytes(args[0], 0, order)[1])
+            keep = bytes(raw)
+            res2 = []
+            for I in classes:
+                try:
+                    res2.append(("ok", (int(I.from_bytes(raw, order)), int(I.from_bytes(raw, order)), bytes(raw) == keep)))
+                except Exception as e:      # noqa
+                    res2.append(("exc", type(e).__name__))
+                raw[:] = keep
+            ctx.count("from_bytes_twice")
+            ctx.check(res2[0] == res2[1] == res2[2] and (res2[0][0] == "exc" or (res2[0][1][0] == res2[0][1][1] and res2[0][1][2])),
+                      "int:from_bytes:second-decoding-of-one-buffer-differs",
+                      "decoding the same bytearray twice gives different numbers (or changes the buffer), depending on the back-end",
+                      lambda: {"order": order, "octets": keep.hex()[:200], "gmp": repr(res2[0])[:200], "custom": repr(res2[1])[:200],
+                               "native": repr(res2[2])[:200]})
         if _violated_preconditions(op, args) > 1:
             continue        # the statement is about inputs violating a *single* documented precondition
         results = []
